@@ -2,6 +2,7 @@
 hdl21 ProtoBuf Import 
 """
 from types import SimpleNamespace
+from dataclasses import fields
 from typing import Union, Any, Dict, List, Optional
 
 # Local imports
@@ -19,6 +20,7 @@ from ..signal import Signal, PortDir, Visibility
 from ..slice import Slice
 from ..concat import Concat
 from ..literal import Literal
+from ..scalar import Scalar
 from .. import primitives
 from ..primitives import Primitive, Vpulse
 
@@ -164,6 +166,7 @@ class ProtoImporter:
                 # Import a VLSIR primitive to an ideal element, and convert its parameters
                 target = import_vlsir_primitive(ref.external)
                 remapped_params = import_primitive_params(target, params)
+                remapped_params = import_scalar_literals(target, remapped_params)
                 params = target.Params(**remapped_params)
 
             elif ref.external.domain in (
@@ -172,6 +175,7 @@ class ProtoImporter:
             ):
                 # Retrieve the Primitive from `hdl21.primitives`, and convert its parameters
                 target = import_hdl21_primitive(ref.external)
+                params = import_scalar_literals(target, params)
                 params = target.Params(**params)
 
             else:  # Externally-defined `ExternalModule`
@@ -385,6 +389,18 @@ def import_prefixed(vpref: vlsir.Prefixed) -> Prefixed:
         raise ValueError(f"Invalid Parameter Type: `{ptype}`")
 
     return Prefixed(number=number, prefix=prefix)
+
+
+def import_scalar_literals(target: Primitive, params: Dict[str, Any]) -> Dict[str, Any]:
+    """Import the string values of `Scalar`-typed primitive parameters as `Literal`s.
+    The exporter writes every number as a `Prefixed`, so a string can only stem from a `Literal`,
+    and must not go through `Scalar`'s conversion of number-like strings to `Prefixed`."""
+    scalars = (Scalar, Optional[Scalar])
+    names = {field.name for field in fields(target.Params) if field.type in scalars}
+    return {
+        key: Literal(text=val) if key in names and isinstance(val, str) else val
+        for key, val in params.items()
+    }
 
 
 def import_primitive_params(
